@@ -260,7 +260,11 @@ def run(rep, tier, seed, pa):
         data = {"units": case["units"], "dissim": case["spec"], "window": w}
         if not close(r["disorder"], exact, TAU2):
             rep.violation("reported-disorder", dict(data, reported=float(r["disorder"]), exact=str(exact)), "reported fast disorder %r, exact disorder of its units %r" % (float(r["disorder"]), float(exact)))
-        best = cont.get_best_alignment(dissim).disorder
+        try:
+            best = cont.get_best_alignment(dissim).disorder
+        except Exception as e:
+            rep.violation("best-alignment-raises:" + type(e).__name__, dict(data, error=repr(e)), "get_best_alignment raised %r" % (e,))
+            continue
         if frac(r["disorder"]) < frac(best) - TAU2 * max(1, frac(best)):
             rep.violation("below-optimum", dict(data, fast=float(r["disorder"]), best=float(best)), "fast disorder %r is lower than the best alignment's %r" % (float(r["disorder"]), float(best)))
         if w * I.n >= I.nunits and not close(r["disorder"], best, TAU2):
